@@ -14,6 +14,7 @@ import (
 	"strings"
 	"sync"
 
+	"github.com/KevoDB/kevo/pkg/config"
 	"github.com/KevoDB/kevo/pkg/memtable"
 )
 
@@ -43,6 +44,10 @@ func runC18(c *Case, out func(string)) {
 	}
 	if hdrVal(c.Hdr, "mode", "seq") == "sentinel" {
 		runC18Sentinel(c, out)
+		return
+	}
+	if hdrVal(c.Hdr, "mode", "seq") == "pool" {
+		runC18Pool(c, out)
 		return
 	}
 	mt := memtable.NewMemTable()
@@ -277,6 +282,107 @@ func runC18(c *Case, out func(string)) {
 		nt = 1
 	}
 	out(fmt.Sprintf("META inserts=%d keys=%d multiversion_keys=%d seq_ties=%d held_steps=%d nontrivial=%d", len(log), len(keys), multi, ties, heldSteps, nt))
+}
+
+// The memtable pool: put K V S | del K S | switch (SwitchToNewMemTable) | get K | tables
+// (GetMemTables: number of tables and, in read precedence, entries + a(ctive)/i(mmutable)).
+// The writer's numbers increase (as the storage manager's do), so the oracle is "the last write
+// of the key wins, wherever in the pool it lives".
+func runC18Pool(c *Case, out func(string)) {
+	cfg := config.NewDefaultConfig(tmpDir("c18p-"))
+	cfg.MemTableSize = 1 << 30
+	cfg.MaxMemTableAge = 0
+	pool := memtable.NewMemTablePool(cfg)
+	type last struct {
+		v   []byte
+		del bool
+	}
+	ref := map[string]last{}
+	ok := true
+	fail := func(m string) {
+		if ok {
+			out("ORACLE FAIL " + m)
+		}
+		ok = false
+	}
+	switches, gets, multi := 0, 0, 0
+	tablesOf := map[string]map[int]bool{}
+	for _, l := range c.Lines {
+		switch l[0] {
+		case "put":
+			k, v := tok(l[1]), tok(l[2])
+			pool.Put(k, v, parseNum(l[3]))
+			ref[string(k)] = last{v: v}
+			if tablesOf[string(k)] == nil {
+				tablesOf[string(k)] = map[int]bool{}
+			}
+			tablesOf[string(k)][switches] = true
+		case "del":
+			k := tok(l[1])
+			pool.Delete(k, parseNum(l[2]))
+			ref[string(k)] = last{del: true}
+			if tablesOf[string(k)] == nil {
+				tablesOf[string(k)] = map[int]bool{}
+			}
+			tablesOf[string(k)][switches] = true
+		case "switch":
+			pool.SwitchToNewMemTable()
+			switches++
+		case "get":
+			k := tok(l[1])
+			gets++
+			if len(tablesOf[string(k)]) > 1 {
+				multi++
+			}
+			v, found := pool.Get(k)
+			w, have := ref[string(k)]
+			switch {
+			case !found:
+				out("G absent")
+				if have {
+					fail("pool get " + render(k) + " absent but the key was written")
+				}
+			case v == nil:
+				out("G deleted")
+				if !have || !w.del {
+					fail("pool get " + render(k) + " reports a deletion marker, the last write of the key is not a delete")
+				}
+			default:
+				out("G v:" + render(v))
+				if !have || w.del || !bytes.Equal(w.v, v) {
+					fail("pool get " + render(k) + " returned " + render(v) + ", which is not the last write of the key")
+				}
+			}
+		case "tables":
+			ts := pool.GetMemTables()
+			var parts []string
+			for i, t := range ts {
+				n := 0
+				it := t.NewIterator()
+				for it.SeekToFirst(); it.Valid(); it.Next() {
+					n++
+				}
+				fl := "a"
+				if t.IsImmutable() {
+					fl = "i"
+				}
+				if (i == 0) != (fl == "a") {
+					fail("GetMemTables: the active table is not first / an immutable table is")
+				}
+				parts = append(parts, fmt.Sprintf("%d%s", n, fl))
+			}
+			out(fmt.Sprintf("T n=%d %s", len(ts), strings.Join(parts, ",")))
+			if len(ts) != switches+1 {
+				fail(fmt.Sprintf("GetMemTables returned %d tables after %d switches", len(ts), switches))
+			}
+		default:
+			out("IMPL-ERROR bad line " + strings.Join(l, " "))
+		}
+	}
+	if ok {
+		out("ORACLE ok")
+	}
+	out(fmt.Sprintf("META pool_switches=%d pool_gets=%d gets_of_keys_in_several_tables=%d nontrivial=%d", switches, gets, multi, b2i(switches >= 2 && multi > 0)))
 }
 
 // Concurrent part: one writer inserts the case's entries in order; reader goroutines run Get /
@@ -562,6 +668,40 @@ func genC18Held(w *bufio.Writer, r *rand.Rand, id string) {
 	fmt.Fprintf(w, "hdrain\niter\nend\n")
 }
 
+// the pool: versions of a few keys spread over several generations of the active table
+func genC18Pool(w *bufio.Writer, r *rand.Rand, id string) {
+	fmt.Fprintf(w, "case %s mode=pool\n", id)
+	nk := 3 + r.Intn(4)
+	seq := uint64(0)
+	key := func() string { return mkTok([]byte(fmt.Sprintf("k%d", r.Intn(nk)))) }
+	for g := 2 + r.Intn(4); g > 0; g-- {
+		for i := 1 + r.Intn(5); i > 0; i-- {
+			seq++
+			if r.Intn(5) == 0 {
+				fmt.Fprintf(w, "del %s %s\n", key(), num(seq))
+			} else {
+				fmt.Fprintf(w, "put %s %s %s\n", key(), genVal(r), num(seq))
+			}
+		}
+		if r.Intn(3) == 0 {
+			fmt.Fprintf(w, "get %s\n", key())
+		}
+		fmt.Fprintf(w, "switch\n")
+		if r.Intn(4) == 0 {
+			fmt.Fprintf(w, "tables\n")
+		}
+	}
+	for i := r.Intn(3); i > 0; i-- {
+		seq++
+		fmt.Fprintf(w, "put %s %s %s\n", key(), genVal(r), num(seq))
+	}
+	fmt.Fprintf(w, "tables\n")
+	for i := 0; i < nk+1; i++ {
+		fmt.Fprintf(w, "get %s\n", mkTok([]byte(fmt.Sprintf("k%d", i))))
+	}
+	fmt.Fprintf(w, "end\n")
+}
+
 func genC18(w *bufio.Writer, seed int64, n int, tier string) {
 	r := rand.New(rand.NewSource(seed*6151 + 18))
 	for ci := 0; ci < n; ci++ {
@@ -571,6 +711,10 @@ func genC18(w *bufio.Writer, seed int64, n int, tier string) {
 		}
 		if ci%10 == 4 {
 			genC18Held(w, r, fmt.Sprintf("c18-%d-%d", seed, ci))
+			continue
+		}
+		if ci%10 == 6 {
+			genC18Pool(w, r, fmt.Sprintf("c18-%d-%d", seed, ci))
 			continue
 		}
 		conc := ci%10 == 9
